@@ -309,7 +309,7 @@ func (w *world) afterRecv(c *xchain, in *intent, out *txOutcome) {
 		dt := w.dstTokenFor(pk.src, pk.dst, pk.tok)
 		np.dst, np.sender, np.tok, np.receiver = si.agentDst, agentAddr, dt, si.agentRecv
 		np.amount, np.feeTok, np.feeAmt = new(big.Int).Sub(pk.amount, si.agentFee), dt, si.agentFee
-		np.nested = true
+		np.nested, np.refundTo = true, si.agentRefund
 		w.m.pkts[pktKey(c.idx, np.dst, np.seq)] = np
 		w.wire = append(w.wire, &wireMsg{kind: "recv", from: c.idx, to: np.dst, packet: e.Packet, height: c.CurHdr.Height, key: np.p.Triple(), dropped: map[int]bool{}})
 		nested = append(nested, np)
